@@ -246,6 +246,28 @@ def judge_parallel(ctx, module, rows, chunk=300):
     return out
 
 
+def judge_with_selftest(ctx, module, rows, corrupted, chunk=300):
+    """judge_parallel plus a binding self-test: `corrupted` = [(expected_law, row)] are deliberately falsified copies of
+    good rows; the Trace module must flag each with the expected law, else the judging itself is broken (exit 2)."""
+    marked = [dict(r, selftest=law) for law, r in corrupted]
+    if not marked:
+        ctx.machinery("no row suitable for the binding self-test of %s" % module)
+    out, caught = [], set()
+    for row, v in judge_parallel(ctx, module, marked + rows, chunk=chunk):
+        if "selftest" in row:
+            laws = {f[1] if isinstance(f, list) else f for f in v["failed"]}
+            if row["selftest"] in laws:
+                caught.add(row["selftest"])
+        else:
+            out.append((row, v))
+    missing = {law for law, _ in corrupted} - caught
+    if missing:
+        ctx.machinery("binding self-test: %s did not flag falsified rows for %s" % (module, sorted(missing)))
+    ctx.cov["traces_validated_against_impl"] -= len(marked)
+    ctx.cov["selftest_rows_rejected"] = len(marked)
+    return out
+
+
 def collect_rows(ctx, before):
     """Rows handed back by replay workers since index `before` of ctx.collected."""
     rows = [x[1] for x in ctx.collected[before:] if x[0] == "row"]
